@@ -88,6 +88,11 @@ def zeros (n : Nat) : List Byte := List.replicate n 0
 /-- `_mpt_buffer_alloc`: header of 64 bytes, total rounded up to the 128-byte granule -/
 def allocSize (len : Nat) : Nat := ((len + 63) / 128 + 1) * 128 - 64
 
+/-- element size of a buffer's content traits (raw data: bytes) -/
+def esize : Option Traits → Nat
+  | some t => t.size
+  | none => 1
+
 /-- round `len` up to a multiple of `sz` (`sz ≠ 0`) -/
 def roundUp (len sz : Nat) : Nat := if len % sz = 0 then len else len + (sz - len % sz)
 
@@ -402,20 +407,19 @@ def detachCopy (s : State) (b : Nat) (x : Buf) (nb : Nat) : Out Nat :=
     | .fault w => .fault w
   | .fault w => .fault w
 
+/-- finalise the elements of `x` (buffer `b`) that do not fit into `len` bytes -/
+def finiTail (s : State) (b : Nat) (x : Buf) (len : Nat) : Out Unit :=
+  if x.used > len then
+    match x.traits with
+    | some t =>
+      if t.fini.isSome then finiLoop (iters len (x.used - x.used % t.size) t.size) s b len t.size
+      else .ok s ()
+    | none => .ok s ()
+  else .ok s ()
+
 /-- unique source: move the data, finalise what does not fit -/
 def detachMove (s : State) (b : Nat) (x : Buf) (nb len : Nat) : Out Nat :=
-  let s2 := s.setBuf b { x with ref := 0 }
-  let r : Out Unit :=
-    if x.used > len then
-      match x.traits with
-      | some t =>
-        if t.fini.isSome then
-          let top := x.used - x.used % t.size
-          finiLoop (iters len top t.size) s2 b len t.size
-        else .ok s2 ()
-      | none => .ok s2 ()
-    else .ok s2 ()
-  match r with
+  match finiTail (s.setBuf b { x with ref := 0 }) b x len with
   | .ok s3 _ =>
     let add := min x.used len
     match s3.buf? b, s3.buf? nb with
@@ -431,12 +435,9 @@ def detach (s : State) (b len : Nat) : Out Nat :=
   match s.buf? b with
   | none => .fault "detach: freed buffer"
   | some x =>
-    let sz0 := match x.traits with
-      | some t => t.size
-      | none => 1
-    if sz0 = 0 then .fail s .null
+    if esize x.traits = 0 then .fail s .null
     else
-      let len := roundUp len sz0
+      let len := roundUp len (esize x.traits)
       if x.ref < 2 ∧ len ≤ x.size ∧ ¬ x.immutable then .ok s b
       else if 2 ≤ x.ref ∧ x.nocopy ∧ x.used ≠ 0 then .fail s .null
       else
